@@ -205,8 +205,26 @@ def random_case(rng, features=()):
                 for e in entries:
                     if e["file"] == src:
                         e["include_paths"] += [x for x in ("cb/src/sub", "cb/inc") if x not in e["include_paths"]]
+        r3 = random.Random(rng.getstate()[1][0] ^ 0x686F7073)
+        if r3.random() < 0.6:
+            # a compile command that names its file through a TWO-step alias kept beside the file: a link to a link, or
+            # a link whose target passes through a directory link (one readlink does not reach the physical file)
+            e = r3.choice([e for entries in platforms.values() for e in entries])
+            c, e["hop"] = e["file"], True
+            d, b = os.path.dirname(c), os.path.basename(c)
+            rel = lambda: "rel:" if r3.random() < 0.5 else ""      # noqa: E731
+            if r3.random() < 0.5:
+                links[d + "/hop2_" + b] = rel() + c
+                links[d + "/hop1_" + b] = rel() + d + "/hop2_" + b
+                e["file"] = d + "/hop1_" + b
+            else:
+                links["cb/lnk_hop"] = d
+                links[d + "/hopd_" + b] = rel() + "cb/lnk_hop/" + b
+                e["file"] = d + "/hopd_" + b
         for entries in platforms.values():
             for e in entries:
+                if e.pop("hop", False):
+                    continue
                 d, b = os.path.dirname(e["file"]), os.path.basename(e["file"])
                 r = rng.random()
                 if d == "cb/src" and r < 0.4:
@@ -221,6 +239,10 @@ def random_case(rng, features=()):
         excludes = rng.sample(["*.h", "sub/", "s0.c", "inc/*", "/sys", "g.h"], rng.randint(1, 2))
         if rng.random() < 0.3:
             excludes = rng.choice([["*.h", "!h.h"], ["inc/*", "!inc/g.h"], ["*.h", "!cfg.h", "s1.c"]])   # order matters
+        r4 = random.Random(rng.getstate()[1][0] ^ 0x616E6368)
+        if r4.random() < 0.35:
+            # an ANCHORED directory pattern: /sub/ names cb/sub only (no such directory), not cb/src/sub - it removes nothing
+            excludes.insert(r4.randrange(len(excludes) + 1), r4.choice(["/sub/", "/sub"]))
     return {"files": files, "links": links, "platforms": platforms, "excludes": excludes, "codebase": "cb"}
 
 
